@@ -88,7 +88,8 @@ type Def struct {
 	Mode         int      `json:"mode"`    // 0 normal, 1 bundling, 2 singleDash
 	Unknown      int      `json:"unknown"` // 0 fail, 1 warn, 2 pass
 	RequireOrder bool     `json:"require_order,omitempty"`
-	Help         string   `json:"help,omitempty"` // name of the help command/option, "" = none
+	LateMode     bool     `json:"late_mode,omitempty"` // SetMode is called after all options and commands have been declared
+	Help         string   `json:"help,omitempty"`      // name of the help command/option, "" = none
 	HelpAliases  []string `json:"help_aliases,omitempty"`
 }
 
@@ -99,6 +100,9 @@ func (d *Def) ConfigString() string {
 	s := modeNames[d.Mode] + "/" + unknownNames[d.Unknown]
 	if d.RequireOrder {
 		s += "/requireOrder"
+	}
+	if d.LateMode {
+		s += "/SetMode-after-commands"
 	}
 	return s
 }
@@ -263,13 +267,18 @@ func Build(def *Def, env map[string]string) *Prog {
 	p.ctx = context.WithValue(context.Background(), ctxKey{}, p)
 	opt := getoptions.New()
 	opt.Self(def.Root.Name, def.Root.Desc)
-	opt.SetMode(getoptions.Mode(def.Mode))
+	if !def.LateMode {
+		opt.SetMode(getoptions.Mode(def.Mode))
+	}
 	opt.SetUnknownMode(getoptions.UnknownMode(def.Unknown))
 	if def.RequireOrder {
 		opt.SetRequireOrder()
 	}
 	p.Root = &level{def: &def.Root, opt: opt}
 	p.build(p.Root)
+	if def.LateMode {
+		opt.SetMode(getoptions.Mode(def.Mode))
+	}
 	if def.Help != "" {
 		var fns []getoptions.ModifyFn
 		if len(def.HelpAliases) > 0 {
